@@ -215,18 +215,25 @@ class Encoder:
         self.compress = compress      # 'auto' | 'none'
         self.table: Dict[Tuple[bytes, ...], int] = {}
         self.marks: Dict[str, int] = {}       # named offsets for raw nodes
+        self.len_positions: List[int] = []    # offsets of label-length / pointer octets
+        self.rdlen_positions: List[int] = []  # offsets of rdlength fields
         self.fixups: List[Tuple[int, str]] = []
 
     def name(self, labels: List[bytes], mode: Optional[str] = None) -> None:
         mode = mode or self.compress
         for i in range(len(labels)):
             suffix = tuple(labels[i:])
-            if mode == 'auto' and suffix in self.table:
+            if mode in ('auto', 'chainy') and suffix in self.table:
                 ptr = self.table[suffix]
+                self.len_positions.append(len(self.buf))
+                if mode == 'chainy' and len(self.buf) < 0x4000:
+                    # next user of this suffix points at *this pointer*: legal pointer-to-pointer chains
+                    self.table[suffix] = len(self.buf)
                 self.buf += bytes([0xC0 | (ptr >> 8), ptr & 0xFF])
                 return
-            if len(self.buf) < 0x4000 and mode != 'nopublish':
+            if len(self.buf) < 0x4000:
                 self.table.setdefault(suffix, len(self.buf))
+            self.len_positions.append(len(self.buf))
             self.buf.append(len(labels[i]))
             self.buf += labels[i]
         self.buf.append(0)
@@ -267,6 +274,7 @@ class Encoder:
         self.any_name(r['name'])
         self.buf += struct.pack('>HHL', r['type'], r['cls'], r['ttl'] & 0xFFFFFFFF)
         lenpos = len(self.buf)
+        self.rdlen_positions.append(lenpos)
         self.buf += b'\0\0'
         rd, typ = r['rd'], r['type']
         if 'raw' in rd:
